@@ -197,6 +197,9 @@ Theorem C20_angle_axis : forall c s (axis p : vec3 R), c * c + s * s = 1 -> 0 < 
 Proof. intros c s axis p H Ha. cbv zeta. split; [apply angle_axis_unit; assumption | exact (angle_axis_rotates c s axis p H Ha)]. Qed.
 Print Assumptions C20_angle_axis.
 
+(* RANGE REMARK (binary64 vs R): every constructor normalises with reb_vec3d_normalize, whose intermediate squared length must be a normal
+   double: the theorems over R describe the compiled code for |v| in about [1e-150, 1e150]; beyond that the square over/underflows and the
+   code returns NaN (outside the domain of the property, like the zero vector).  The searcher exercises magnitudes up to both ends of that range. *)
 (* init_from_to on ALL branches, every non-zero from/to (thr = the literal 1e-28, any non-negative value): a unit quaternion; it maps
    from_hat to to_hat on the direct and on the two-stage branch; on the antiparallel branch (|from_hat+to_hat|^2 <= thr) it is a half
    turn (real part 0) taking from_hat to -from_hat, which is within sqrt(thr) of to_hat *)
@@ -274,7 +277,7 @@ Print Assumptions C20_orbit_elements_rotation_invariant.
 (* the planar orbit rotated by init_orbit(Omega, inc, omega) reads back a, e unchanged and the inclination and node of the rotation *)
 Theorem C20_rotated_planar_orbit_elements : forall (L : libm R) (L2 : libm2 R), l_acos L2 = acos -> l_pi L = PI ->
   forall tiny G t0 prim m a e (t : trig R) p0 o inc Om c_o s_o c_i s_i c_O s_O,
-  trig_ok t -> 0 < G * (m + pm prim) -> shape_ok a e -> -1 < e * cf t -> tiny <= pm prim ->
+  trig_ok t -> 0 < G * (m + pm prim) -> shape_ok a e -> -1 < e * cf t -> tiny < pm prim ->
   ci t = cos inc -> si t = sin inc -> 0 < inc < PI -> cO t = cos Om -> sO t = sin Om -> - PI < Om <= PI ->
   c_o * c_o + s_o * s_o = 1 -> c_i * c_i + s_i * s_i = 1 -> c_O * c_O + s_O * s_O = 1 ->
   co t = c_o * c_o - s_o * s_o -> so t = 2 * s_o * c_o -> ci t = c_i * c_i - s_i * s_i -> si t = 2 * s_i * c_i ->
